@@ -31,6 +31,9 @@ M = [
  ("C10", "detach-lt", "spline/__init__.py", "    if rij <= self.detachmentX:\n      return self.startPotential(rij)", "    if rij < self.detachmentX:\n      return self.startPotential(rij)"),
  ("C10", "matrix-entry", "spline/__init__.py", "[0.0  , 0.0 , 2.0    , 6.0*ex    , 12.0*ex**2 , 20.0*ex**3]])", "[0.0  , 0.0 , 2.0    , 6.0*ex    , 12.0*ex**2 , 24.0*ex**3]])"),
  ("C10", "buck4-matrix", "spline/__init__.py", "0, 0   , 0      , 0       , 0        , 0        , 0 , 0     , 2       , 6*r_ap]", "0, 0   , 0      , 0       , 0        , 0        , 0 , 0     , 2       , 3*r_ap]"),
+ ("C09", "trans-minus", "_modifiers.py", "return potential_func(r+trans_value)", "return potential_func(r-trans_value)"),
+ ("C09", "product-as-plus", "_modifiers.py", 'mod = _modifier_from_func_reduce("product", product, potential_forms, potential_form_builder)', 'mod = _modifier_from_func_reduce("product", plus, potential_forms, potential_form_builder)'),
+ ("C09", "default-range-ge", "config/_config_parser.py", 'self._default_range_start = MultiRangeDefinitionTuple(u">", 0.0)', 'self._default_range_start = MultiRangeDefinitionTuple(u">=", 0.0)'),
  ("C03", "setfl-nr-minus-1", "eam_tabulation.py", None, None),
 ]
 def main():
